@@ -121,7 +121,7 @@ def _parms(d):
                          bytes(v) if isinstance(v, (bytes, bytearray)) else v) for k, v in d.items()))
 
 
-def drive(kind, fragments, close_at_end=False, maxmsgs=4, method="GET"):
+def drive(kind, fragments, close_at_end=False, maxmsgs=4, method="GET", close_first=False):
     """feed fragments to a fresh Requestant / Respondent; returns (list of message snapshots, leftover bytes, exc)"""
     msg = bytearray()
     if kind == "req":
@@ -156,6 +156,16 @@ def drive(kind, fragments, close_at_end=False, maxmsgs=4, method="GET"):
                 return True
         return False
     alive = True
+    if close_first:      # the last fragment AND the peer's close are noticed together (earlier fragments were parsed as they came)
+        for frag in fragments[:-1]:
+            msg.extend(frag)
+            if alive:
+                alive = pump()
+        msg.extend(fragments[-1])
+        p.close()
+        if alive:
+            alive = pump()
+        fragments = ()
     for frag in fragments:
         msg.extend(frag)
         if alive:
